@@ -1,9 +1,13 @@
 package main
 
 import (
+	"bytes"
 	"fmt"
 	"runtime"
+	"strings"
 	"sync"
+
+	"github.com/xinchentechnote/fin-proto-go/codec"
 
 	"verif/engine/bind"
 	"verif/engine/ev"
@@ -17,6 +21,7 @@ func init() {
 	checks["C06"] = runC06
 	checks["C07"] = runC07
 	checks["C16"] = runC16
+	caseChecks["C04"] = c04RegistryCase
 }
 
 func dynTable(t *rm.Type) *rm.Table {
@@ -137,6 +142,9 @@ func runFrameHist(r *ev.Run, prop string, thorough bool) {
 	// every registered body type with ITS OWN V1 (every leaf deviation of every body, mid-range list sizes included),
 	// wrapped in the frame: a fresh buffer, a small-capacity buffer and a buffer holding earlier bytes
 	frameBodyHistories(r, prop, frames, [][]hOp{{{opENC, 0}}, {{opJUNK, 1}, {opENC, 0}, {opENC, 0}}}, []int{capZero, 128})
+	if prop == "C04" {
+		registryStateLeg(r, frames)
+	}
 	r.Sample("sse.SseBinary key 33: [ENC(m0) ENC(m1) SKIP(3) ] cap class -1")
 	r.Sample("sample.RootPacket nil body: [JUNK(1) ENC(m1) ENC(m0)] cap class 4096")
 	r.Set("bound", map[string]any{"depth": depth, "capacity_classes": 10})
@@ -442,4 +450,75 @@ func afterFailedEncode(r *ev.Run, prop string) {
 			}
 		}
 	})
+}
+
+// registryStateLeg (C04, sequential, after all parallel work): the length field must be right whatever the state of
+// the checksum-service registry — with the services removed the frames still carry their body length.
+func restoreBuiltins() {
+	codec.Clear()
+	for _, s := range []any{&codec.Crc16ChecksumService{}, &codec.Crc32ChecksumService{}, &codec.SseBinChecksumService{}, &codec.SzseBinChecksumService{}} {
+		codec.Registry(s)
+	}
+}
+
+// c04RegistryCase: one frame value encoded with the checksum registry cleared; the length must still be right.
+func c04RegistryCase(t *rm.Type, v *rm.Value) *ev.Violation {
+	defer restoreBuiltins()
+	codec.Clear()
+	ref, segs, _, err := rm.EncodeRef(v)
+	if err != nil {
+		return nil
+	}
+	msg := bind.MustReal(v)
+	buf := &bytes.Buffer{}
+	buf.Write([]byte{0xAA, 0xBB})
+	if e := bind.Encode(msg, buf); e != nil {
+		return vio("encode-error-without-checksum-service", t, "", e.Error(), v)
+	}
+	out := buf.Bytes()[2:]
+	got := bind.MustFrom(t, msg)
+	for _, sg := range segs {
+		if sg.Role != "length" || sg.Off+sg.Len > len(out) {
+			continue
+		}
+		if !bytes.Equal(out[sg.Off:sg.Off+sg.Len], ref[sg.Off:sg.Off+sg.Len]) {
+			return vio("length-wrong-without-checksum-service", t, sg.Path, fmt.Sprintf("registry cleared: length on the wire %x, want %x", out[sg.Off:sg.Off+sg.Len], ref[sg.Off:sg.Off+sg.Len]), v)
+		}
+		fi := t.FieldIndex(strings.TrimPrefix(sg.Path, "."))
+		if fi >= 0 && got.Fields[fi].Bits != uint64(len(ref))-uint64(hdrAndTrailer(t, segs)) {
+			return vio("object-length-wrong-without-checksum-service", t, sg.Path, fmt.Sprintf("registry cleared: the message object reports %d", got.Fields[fi].Bits), v)
+		}
+	}
+	return nil
+}
+
+func registryStateLeg(r *ev.Run, frames []*rm.Type) {
+	l := ev.NewLocal()
+	for _, t := range frames {
+		tab := dynTable(t)
+		for _, k := range []string{tab.Order[0], tab.Order[len(tab.Order)-1]} {
+			for _, base := range []string{"Z", "D", "L"} {
+				v := valenum.Stale(valenum.WithKey(t, k, base), 4)
+				l.Evals++
+				l.Transitions++
+				l.Traces++
+				if viol := c04RegistryCase(t, v); viol != nil {
+					r.Violate(viol)
+				}
+			}
+		}
+	}
+	r.Merge(l)
+	r.Set("registry_state_leg", "length checked with the checksum registry cleared (sequential)")
+}
+
+// hdrAndTrailer: bytes of the frame that are not body (everything outside the dyn part).
+func hdrAndTrailer(t *rm.Type, segs []rm.Segment) int {
+	n := 0
+	for _, sg := range segs {
+		if strings.Count(sg.Path, ".") == 1 && !strings.Contains(sg.Path, "[") {
+			n += sg.Len
+		}
+	}
+	return n
 }
